@@ -177,6 +177,7 @@ func tplCorpus() []string {
 		"@(((t) => t(t)(t)((x) => x + 1)(0))((f) => (x) => f(f(x))))", "@(((t) => t(t)((x) => x + 1)(0))((f) => (x) => f(f(x))))", "@(((f) => (x) => f(f(f(x))))((x) => x & \"a\")(\"\"))",
 		"@(foreach(array(1, 2, 3), (x) => ((f) => f(f))((f) => f(f))))", "@(((f, n) => f(f, n))((f, n) => f(f, n + 1), 0))", "@(((x) => x)((x) => x)(5))", "@(((f) => f)(upper)(\"a\"))",
 		"@(2 ^ 99999999999)", "@(7 ^ 999999999 > 1)", "@(9999999999999999999999999999999999999999999999999999999999999999 ^ 9999999999999999999999999999999999999999999999999999999999999.5)",
+		"@((-7) ^ 999999999 > 1)", "@((-2) ^ 99999999999)", "@((-2) ^ 100001)", "@((-2) ^ 100000 < 0)", "@((0 - 7) ^ 999999999)", "@((-2) ^ -999999999)", "@(-2 ^ 100001)", "@((-99) ^ 50001)",
 		"@(2 ^ 100000)", "@(2 ^ 100001)", "@(123456789.5 ^ 100000)", "@(repeat(\"x\", 2147483647))", "@(repeat(\"ab\", 50000))", "@(repeat(\"ab\", 50001))", "@(text_length(repeat(\"x\", 999999999)))")
 	// texts and values that double: 2^36 characters from a 150 character template, two capped texts multiplied,
 	// shared sub-values (41 small arrays, 2^40 leaves to walk), regular expressions whose cost is text x program size
